@@ -202,7 +202,8 @@ class TT():
                           ] if self.__is_ttm else [n for n in self.N]
 
         elif isinstance(source, np.ndarray):
-            source = tn.tensor(source)
+            # (views with negative strides, e.g. a[::-1], are not accepted by torch as they are)
+            source = tn.tensor(source.copy() if any(st < 0 for st in source.strides) else source)
 
             if shape == None:
                 # no size is given. Deduce it from the tensor. No TT-matrix in this case.
